@@ -93,7 +93,11 @@ def install_run_counter(on_run_done=None) -> None:
     orig = pm.Pipeline._process
 
     def _process(self, payload):
-        out = orig(self, payload)
+        try:
+            out = orig(self, payload)
+        except BaseException:
+            _COUNTERS["pipeline_runs"] += 1      # a run that raised is a run too (the queue mode feeds failing jobs)
+            raise
         _COUNTERS["pipeline_runs"] += 1
         if on_run_done is not None:
             on_run_done(_COUNTERS["pipeline_runs"])
@@ -496,12 +500,17 @@ def drive_queue_worker(job, case, mon):
             submitted = done
             while done < target:
                 while submitted < target and len(pending) < depth:
-                    fut = orch.enqueue(copy.deepcopy(case["nodes"]), data=to_real_data(case["data"]),
-                                       context=ContextType(copy.deepcopy(case["ctx"])), return_future=True)
+                    if submitted % 4 == 3:
+                        # every fourth job fails in the worker (required parameter neither configured nor in the
+                        # context): the error path must not leave anything behind either
+                        fut = orch.enqueue([{"processor": "VSrc"}], data=None, context=ContextType({}), return_future=True)
+                    else:
+                        fut = orch.enqueue(copy.deepcopy(case["nodes"]), data=to_real_data(case["data"]),
+                                           context=ContextType(copy.deepcopy(case["ctx"])), return_future=True)
                     pending.append(fut)
                     submitted += 1
                 fut = pending.pop(0)
-                fut.result(timeout=120)
+                fut.exception(timeout=120)      # waits for completion, successful or exceptional
                 done += 1
             del pending, fut
             mon.maybe_sample(target)
